@@ -16,10 +16,16 @@ POOL = list(range(1001, 1121))
 PROFILES = ["debug", "release"]
 
 
+# Programs that can observe memory addresses, raw registers or gas (hand-written asm, __addr_of, raw pointers,
+# gas getters) may legitimately log values that differ between build profiles; they are not comparable and
+# are left out of the corpus part.
+EXPOSES_LAYOUT = re.compile(r"__addr_of|\basm\s*\(|as_ptr\(\)|\.ptr\(\)|raw_ptr|__gtf|\bgas\(|context_gas|global_gas")
+
+
 def corpus_pool():
     ps = [p for p in corpus.programs("run") if not p["flags"]] + \
          [p for p in corpus.programs("unit_tests_pass") if not p["flags"]]
-    return ps
+    return [p for p in ps if not any(EXPOSES_LAYOUT.search(src) for src in p["files"].values())]
 
 
 def run(ctx):
